@@ -212,7 +212,9 @@ func (pr *ProfileReader) readTagTable(tagTable *TagTable) error {
 	}
 	tagIndex := make(map[Signature]tagIndexEntry)
 
-	endOfTagData := uint32(0)
+	tagDataOffset := uint64(tagTableOffset) + 4 + uint64(tagCount)*12
+
+	endOfTagData := tagDataOffset
 	for i := uint32(0); i < tagCount; i++ {
 		sig, err := binary.ReadU32Big(pr.reader)
 		if err != nil {
@@ -229,8 +231,12 @@ func (pr *ProfileReader) readTagTable(tagTable *TagTable) error {
 			return err
 		}
 
-		if offset+size > endOfTagData {
-			endOfTagData = offset + size
+		if uint64(offset) < tagDataOffset {
+			return fmt.Errorf("tag data at offset %d overlaps the tag table", offset)
+		}
+
+		if end := uint64(offset) + uint64(size); end > endOfTagData {
+			endOfTagData = end
 		}
 
 		tagIndex[Signature(sig)] = tagIndexEntry{
@@ -239,19 +245,20 @@ func (pr *ProfileReader) readTagTable(tagTable *TagTable) error {
 		}
 	}
 
-	tagDataOffset := tagTableOffset + 4 + (tagCount * 12)
-	tagData := make([]byte, endOfTagData-tagDataOffset)
-	bytesRead, err := pr.reader.Read(tagData)
+	// Read only as much as the stream actually provides so that the declared
+	// sizes cannot force a huge allocation.
+	tagDataLength := endOfTagData - tagDataOffset
+	tagData, err := io.ReadAll(io.LimitReader(pr.reader, int64(tagDataLength)))
 	if err != nil {
 		return err
 	}
-	if bytesRead < len(tagData) {
-		return fmt.Errorf("expected %d bytes of tag data but only got %d", len(tagData), bytesRead)
+	if uint64(len(tagData)) < tagDataLength {
+		return fmt.Errorf("expected %d bytes of tag data but only got %d", tagDataLength, len(tagData))
 	}
 
 	for sig, entry := range tagIndex {
-		startOffset := entry.offset - tagDataOffset
-		endOffset := startOffset + entry.size
+		startOffset := uint64(entry.offset) - tagDataOffset
+		endOffset := startOffset + uint64(entry.size)
 		tagTable.add(sig, tagData[startOffset:endOffset])
 	}
 
